@@ -37,6 +37,8 @@ pub struct G<'a> {
     pub inner: Slice,
     pub env: Vec<(Key, Val)>,
     pub consts: HashMap<Key, Val>,
+    /// input symbols that stand for placeholders (value overrides)
+    pub sym_override: HashMap<String, Val>,
     /// names of variables preferred for window enumeration (the rule's own variables)
     pub prefer: Vec<String>,
     pub stats: Stats,
@@ -80,6 +82,7 @@ impl<'a> G<'a> {
             inner,
             env: vec![],
             consts: HashMap::new(),
+            sym_override: HashMap::new(),
             prefer: vec![],
             stats: Stats::default(),
             audit: false,
@@ -136,7 +139,10 @@ impl<'a> G<'a> {
                 .unwrap_or_else(|| panic!("unbound {v}"))
                 .clone(),
             GT::IntegerTerm(t) => Val::Int(self.int(t)),
-            GT::SymbolicTerm(ST::Symbol(s)) => Val::Sym(s.clone()),
+            GT::SymbolicTerm(ST::Symbol(s)) => match self.sym_override.get(s) {
+                Some(v) => v.clone(),
+                None => Val::Sym(s.clone()),
+            },
             GT::SymbolicTerm(ST::FunctionConstant(c)) => self.konst(c, Sort::Symbol),
             GT::SymbolicTerm(ST::Variable(v)) => self
                 .lookup(&(v.clone(), Sort::Symbol))
@@ -565,7 +571,7 @@ impl<'a> G<'a> {
             GT::Infimum => X::K(Val::Inf),
             GT::Supremum => X::K(Val::Sup),
             GT::FunctionConstant(c) => X::K(self.konst(c, Sort::General)),
-            GT::SymbolicTerm(ST::Symbol(s)) => X::K(Val::Sym(s.clone())),
+            GT::SymbolicTerm(ST::Symbol(s)) => X::K(self.sym_override.get(s).cloned().unwrap_or_else(|| Val::Sym(s.clone()))),
             GT::SymbolicTerm(ST::FunctionConstant(c)) => X::K(self.konst(c, Sort::Symbol)),
         }
     }
